@@ -91,6 +91,7 @@ type evGenOpts struct {
 	MaxRows   int
 	Adversary bool // adversarial key strings
 	Burst     bool // some cases: hundreds of in-order rows while the trigger goroutine is held up by a blocked output buffer
+	Stall     bool // some cases with ALLOWEDLATENESS: late and too-late rows arrive while the first delivery of their windows is blocked
 }
 
 // genEvCase builds an event-time window case: spec, rows (one producer), flush row, perf, sink.
@@ -184,6 +185,13 @@ func genEvCase(rng *simrt.Rand, tier string, o evGenOpts) *Case {
 	if burst {
 		n = 130 + rng.Intn(220)
 	}
+	// stall: one trigger round collects many windows / sessions and is held up handing them to a
+	// slow sink through an output buffer of 1; while it is stuck the watermark moves on (some
+	// cases: beyond the allowance) and late rows for the windows of that round arrive
+	stall := o.Stall && !burst && sp.AL > 0 && rng.Bool(0.2)
+	if stall {
+		n = 1 + rng.Intn(6)
+	}
 	// nominal timeline in units; base aligned near a window boundary of the fake epoch
 	epochU := fakeEpochMS * int64(time.Millisecond) / u
 	base := epochU - epochU%sizeU + int64(rng.Intn(3))*sizeU + []int64{0, 0, 1, sizeU / 2, sizeU - 1}[rng.Intn(5)]
@@ -273,6 +281,50 @@ func genEvCase(rng *simrt.Rand, tier string, o evGenOpts) *Case {
 		}
 		ops = append(ops, Op{K: "emit", Row: row, Tag: row["id"].(string)})
 	}
+	if stall {
+		ops = append(ops, Op{K: "sleep", D: int64(20 * time.Second)}) // everything so far is delivered
+		spacing := 2*sizeU + step
+		cur += spacing + oooU
+		m := 12 + rng.Intn(12)
+		type tgt struct {
+			tup []any
+			ts  int64
+		}
+		var tgts []tgt
+		mk := func(id string, tup []any, ts int64) {
+			row := Row{"id": id, "v": rng.Intn(21) - 5, "ts": int(ts)}
+			for k, col := range sp.KeyCols {
+				row[col] = tup[k]
+			}
+			if ts > maxTS {
+				maxTS = ts
+			}
+			ops = append(ops, Op{K: "emit", Row: row, Tag: id})
+		}
+		for j := 0; j < m; j++ {
+			t := tgt{tuples[rng.Intn(len(tuples))], cur}
+			tgts = append(tgts, t)
+			mk(fmt.Sprintf("p%02d", j), t.tup, t.ts)
+			cur += spacing
+		}
+		// z1 closes every target in one round; the pause lets the trigger goroutine pick them up
+		cur += oooU + 1
+		mk("z1", tuples[rng.Intn(len(tuples))], cur)
+		ops = append(ops, Op{K: "sleep", D: int64([]time.Duration{time.Millisecond, 400 * time.Millisecond}[rng.Intn(2)])})
+		beyond := rng.Intn(3) // 0: late rows inside the allowance, 1: beyond it for all, 2: z2 in the middle of them
+		if beyond == 1 {
+			cur += sp.AL/u + spacing*int64(m) + 1
+			mk("z2", tuples[rng.Intn(len(tuples))], cur)
+		}
+		for j := m - 1; j >= 0; j-- {
+			if beyond == 2 && j == m/2 {
+				cur += sp.AL/u + spacing*int64(m) + 1
+				mk("z2", tuples[rng.Intn(len(tuples))], cur)
+			}
+			mk(fmt.Sprintf("q%02d", j), tgts[j].tup, tgts[j].ts+int64(rng.Intn(2)))
+		}
+		c.X["stall"] = true
+	}
 	if maxTS == math.MinInt64 {
 		maxTS = base
 	}
@@ -318,6 +370,12 @@ func genEvCase(rng *simrt.Rand, tier string, o evGenOpts) *Case {
 	if shortBlock && !burst {
 		sink.Fault, sink.Every, sink.D = "slow", 1+rng.Intn(2), int64([]time.Duration{50 * time.Millisecond, 300 * time.Millisecond}[rng.Intn(2)])
 		c.X["short_block"] = true
+	}
+	if stall {
+		perf.Strategy, perf.BlockTimeout, perf.DataChan, perf.WindowOut, perf.ResultChan = "block", int64(time.Hour), 1+rng.Intn(4), 1, 1+rng.Intn(2)
+		sink.Fault, sink.Every, sink.D = "slow", 1, int64([]time.Duration{50 * time.Millisecond, 300 * time.Millisecond, 2 * time.Second}[rng.Intn(3)])
+		shortBlock = false
+		delete(c.X, "short_block")
 	}
 	if burst {
 		perf.Strategy, perf.BlockTimeout, perf.DataChan, perf.WindowOut = "block", int64(time.Hour), 1+rng.Intn(4), 1
@@ -863,6 +921,29 @@ func checkLateRow(e *Env, sp *evSpec, l *evLedger, er *evRow, covers []interval,
 			e.Violate("C02/expired-late-row-changed-result", sp.Kind, "row %s ts=%s arrived when the watermark %s had passed end+ALLOWEDLATENESS of every window containing it, yet it is aggregated in [%s,%s)", er.ID, fmtNS(er.TS), fmtNS(er.WM), fmtNS(r.WS), fmtNS(r.WE))
 		}
 		return
+	}
+	// (d) per window: the row is not aggregated in a window whose allowance had ended when it
+	// arrived, whatever other windows still take it (sliding: the older of the covering windows)
+	for _, r := range seen {
+		if er.WM >= r.WE+sp.AL {
+			// two different ways to get there: the window had not been delivered yet when the row
+			// arrived (the trigger goroutine was behind the watermark and the row, kept for a later
+			// covering window, is picked up when the overdue window finally fires), or it had and
+			// was updated although its allowance was over
+			site := sp.Kind + "/overdue-window-not-yet-fired"
+			for k, ds := range delivered {
+				if k.iv != (interval{r.WS, r.WE}) {
+					continue
+				}
+				for _, d := range ds {
+					if d.D.Emits <= er.Idx && d.D.End > 0 {
+						site = sp.Kind + "/expired-window-updated"
+					}
+				}
+			}
+			e.Violate("C02/expired-late-row-changed-result", site, "row %s ts=%s arrived when the watermark %s had passed end+ALLOWEDLATENESS (%s) of window [%s,%s), yet it is aggregated there", er.ID, fmtNS(er.TS), fmtNS(er.WM), fmtNS(r.WE+sp.AL), fmtNS(r.WS), fmtNS(r.WE))
+			return
+		}
 	}
 	if sp.AL == 0 {
 		return
